@@ -33,13 +33,13 @@ CONSTANTS Kinds,        \* subset of {"fixed", "poisson"}
           MinCounts, MinOffsets,   \* sets of values of min_counts / min_offset
           OffVals,      \* offset entries (positive); 0 is added when min_offset >= 1
           Variants,     \* set of variant names, see above
-          Source,       \* "gen" = enumerate the scope, "file" = instances of IOEnv.INST_FILE
+          Source,       \* "gen" = enumerate the scope, "file" = instances of IOEnv.INST_FILE, "both"
           EmitDone
 
 VARIABLES inst, pc, j, Wt, C, path, res
 vars == <<inst, pc, j, Wt, C, path, res>>
 
-File == IF Source = "file" THEN ndJsonDeserialize(IOEnv.INST_FILE) ELSE <<>>
+File == IF Source \in {"file", "both"} THEN ndJsonDeserialize(IOEnv.INST_FILE) ELSE <<>>
 
 (* cy / cn = cumulative counts / offsets (functions on 0..n), P = number of primes; filled in once *)
 (* when the vectors are complete (definitions over state variables are re-evaluated at each use) *)
@@ -56,7 +56,7 @@ Init == /\ inst = NoInst /\ pc = "pick" /\ j = 0 /\ Wt = <<>> /\ C = <<>> /\ pat
 Total(s) == ISumSeq(s)
 
 Pick ==
-    /\ pc = "pick" /\ Source = "gen"
+    /\ pc = "pick" /\ Source \in {"gen", "both"}
     /\ \E kind \in Kinds, n \in 1..MaxLen :
          \/ /\ kind = "fixed"
             /\ \E E \in EpochSet : inst' = [NoInst EXCEPT !.kind = kind, !.n = n, !.E = E]
@@ -94,7 +94,7 @@ OffsDone ==
     /\ UNCHANGED <<j, Wt, C, path, res>>
 
 Load ==
-    /\ pc = "pick" /\ Source = "file"
+    /\ pc = "pick" /\ Source \in {"file", "both"}
     /\ \E l \in 1..Len(File) :
          LET r == File[l] IN
          inst' = Prepared([NoInst EXCEPT !.kind = r.kind, !.id = r.id, !.n = Len(r.counts), !.counts = r.counts,
